@@ -60,6 +60,10 @@ def mk(name, tree, types, edges, init=None, tags=()):
             d['kmin'] = o['kmin']
         if o.get('async'):
             d['async'] = True
+        if 'se' in o:
+            d['se'] = o['se']
+        if 'de' in o:
+            d['de'] = o['de']
         es.append(d)
     return {'name': name, 'tree': tree, 'types': types, 'edges': es, 'init': init or {}, 'tags': list(tags)}
 
@@ -118,6 +122,14 @@ def curated():
          tags=['weak', 'groups', 'trigger']))
     a(mk('reenter', [['A', 'C'], 'B'], {'A': 'hy', 'B': 'hy', 'C': 'hy'}, [('A', 'B'), ('B', 'C'), ('A', 'C')],
          tags=['groups', 'trigger', 'delay']))
+    # --- several entities per simulator
+    a(mk('ent2', ['A', 'B'], {'A': 'tb', 'B': 'tb'}, [('A', 'B'), ('A', 'B', {'se': 'f', 'de': 'f'})], tags=['data', 'entities']))
+    a(mk('ent2x', ['A', 'B'], {'A': 'tb', 'B': 'tb'}, [('A', 'B', {'se': 'e', 'de': 'f'}), ('A', 'B', {'se': 'f', 'de': 'e', 'k': 1})],
+         tags=['data', 'entities']))
+    a(mk('ent2hy', ['A', 'B'], {'A': 'hy', 'B': 'hy'}, [('A', 'B', {'o': 'p', 'i': 'm'}), ('A', 'B', {'se': 'f', 'de': 'f'}),
+                                                          ('A', 'B', {'se': 'f', 'de': 'e', 'o': 'e', 'i': 't2'})], tags=['data', 'trigger', 'entities']))
+    a(mk('ent2fan', ['A', 'B', 'C'], {'A': 'tb', 'B': 'hy', 'C': 'hy'}, [('A', 'C', {'i': 'm', 'de': 'e'}), ('B', 'C', {'i': 't', 'de': 'f'}),
+                                                                           ('A', 'C', {'i': 'm', 'se': 'f', 'de': 'f'})], tags=['data', 'trigger', 'entities']))
     # --- multi-edges between one pair with different delays
     a(mk('multi_shift', ['A', 'B'], {'A': 'ev', 'B': 'ev'}, [('A', 'B'), ('A', 'B', {'k': 2, 'i': 't2'})], init={'A': 0}, tags=['multi', 'trigger']))
     a(mk('multi_shift_rev', ['A', 'B'], {'A': 'ev', 'B': 'ev'}, [('A', 'B', {'k': 2}), ('A', 'B', {'i': 't2'})], init={'A': 0}, tags=['multi', 'trigger']))
